@@ -57,7 +57,7 @@ def plan(tier, seed):
         for shp in shapes:
             tasks.append({"kind": "kernels", "bits": bits, "shape": list(shp)})
     # size ladder: payloads around 2^16 .. 2^22 elements with non power-of-two dimensions (tiling / blocking / caching code paths)
-    big = [(65537, 3), (4099, 521), (131075, 8)] if tier == "quick" else [(65537, 3), (4099, 521), (131075, 8), (16385, 129), (4096, 2817), (1048579, 2), (3, 1048583), (4100, 4224), (32771, 1031)]
+    big = [(65537, 3), (4099, 521), (131075, 8)] if tier == "quick" else [(65537, 3), (4099, 521), (131075, 8), (16385, 129), (4096, 2817), (1048579, 2), (3, 1048583), (4100, 4224), (32771, 1031), (16385, 4096)]
     for bits in (2, 4):
         for shp in big:
             tasks.append({"kind": "large", "bits": bits, "shape": list(shp)})
@@ -306,7 +306,17 @@ def _repeat_case(case):
         if not torch.equal(u, t) or not torch.equal(p.unpack(), t):
             vs.append(violation(PID, case, fields, f"repeat: result #{i + 1} of {n} same-shaped pack/unpack calls no longer equals its source after the later calls (shape {tuple(t.shape)} bits {bits})"))
             break
-    return len(held) * 2, vs
+    # one packed tensor unpacked many times (a frozen weight evaluated at every forward pass); the caller owns each result
+    t = ((torch.arange(40) * 3) % (1 << bits)).to(torch.uint8).reshape(5, 8)
+    p = PackedTensor.pack(t.clone(), bits)
+    m = case.get("same", 4 * n)
+    for i in range(m):
+        u = p.unpack()
+        if not torch.equal(u, t):
+            vs.append(violation(PID, case, dict(fields, sub="same_instance"), f"repeat: unpack #{i + 1} of the same packed tensor differs from its source (results of earlier calls had been modified in place by the caller; bits {bits})"))
+            break
+        u.add_(1)
+    return len(held) * 2 + m, vs
 
 
 def _ops_case(case):
